@@ -299,14 +299,14 @@ func prioGenJSON(r *Rng, k configKind) prioJSONVal {
 
 type prioCase struct {
 	Argv    []string
-	Env     map[string]string       // everything set in the environment for this case
-	JSON    map[int]prioJSONVal     // leaf index -> value
-	Carrier string                  // "", "file", "b64"
-	Broken  string                  // "", "missing-file", "bad-b64", "bad-json", "type-mismatch"
-	Extra   bool                    // carrier "file": CFG_CONFIG_B64 is ALSO set (must be ignored)
-	ExtraJ  map[int]prioJSONVal     // content of that ignored CFG_CONFIG_B64
-	Path    string                  // file path given to -config
-	cliOf   map[int]bool            // which leaves got a command-line group (statistics)
+	Env     map[string]string   // everything set in the environment for this case
+	JSON    map[int]prioJSONVal // leaf index -> value
+	Carrier string              // "", "file", "b64"
+	Broken  string              // "", "missing-file", "bad-b64", "bad-json", "type-mismatch"
+	Extra   bool                // carrier "file": CFG_CONFIG_B64 is ALSO set (must be ignored)
+	ExtraJ  map[int]prioJSONVal // content of that ignored CFG_CONFIG_B64
+	Path    string              // file path given to -config
+	cliOf   map[int]bool        // which leaves got a command-line group (statistics)
 }
 
 func prioText(r *Rng, k configKind) string {
